@@ -12,7 +12,7 @@ META = {
                    'its slow route fills (0,0,width,height) with Src/alpha 1 under the identity; R14.2 the fast route writes only its span '
                    '(R02.4/R02.5); R14.3 fast and slow route composite with the same src, options.blend_mode and options.alpha; R14.4 '
                    'draw_image helpers = fill_rect with the translated/scaled image source (R13.4).',
-    'decides': ['R14.1 fast-path preconditions', 'R14.2 fast route writes only its span', 'R14.3 same compositing parameters on both routes', 'R14.4 draw_image_at delegates to fill_rect with the translated source'],
+    'decides': ['R14.1 fast-path preconditions (identity transform, integer rectangle of non-negative size, no clip)', 'R14.2 fast route writes only its span', 'R14.3 same compositing parameters on both routes', 'R14.4 draw_image_at delegates to fill_rect with the translated source'],
     'does_not_decide': ['pixel equality of the two routes (full-coverage arithmetic of the rasteriser and combinators)', 'negative-size rectangles: the fast path drops them, the path route fills the mirrored rectangle (no structural signature; documented as D18)'],
     'assumptions': ['a full-coverage mask byte 255 composites like no mask (sw-composite arithmetic, C03 assumption)'],
     'trusted_base': ['sw-composite 0.7.16', 'euclid 0.22.14'],
@@ -202,4 +202,4 @@ _r19_3.__name__ = 'r19_3'
 def run(ctx):
     import props.c13 as c13
     import engine
-    engine.run_rules(ctx, [r14_1, dt.r02_4, dt.r02_5, r14_3, c13.r13_4, c13.r13_5, dt.r03_8, ras.r01_5, dt.r03_2, dt.r03_3, dt.r03_9, _r19_3])
+    engine.run_rules(ctx, [r14_1, dt.r02_4, dt.r02_5, r14_3, c13.r13_4, c13.r13_5, dt.r03_8, ras.r01_5, dt.r03_2, dt.r03_3, dt.r03_9, dt.r06_1, _r19_3])
